@@ -1,6 +1,6 @@
 (* Props/C11.v — property C11: statements only.  Each theorem is closed by `exact`. *)
 From ChiaV.Base Require Import Bytes.
-From ChiaV.Clvm Require Import Ints Sexp IntsProofs LadderProofs WidthProofs.
+From ChiaV.Clvm Require Import Ints Sexp IntsProofs LadderProofs WidthProofs SignedProofs.
 From ChiaV.Gen Require Import Ladders.
 Open Scope N_scope.
 
@@ -69,5 +69,14 @@ Theorem C11_decode_number_unsigned : forall LEN v,
   v < 256 ^ N.of_nat LEN -> decode_number LEN false (canon_n v) = Some (n2be LEN v).
 Proof. exact decode_number_unsigned. Qed.
 
-(* Signed widths (i8 ... i128): encode/decode are mirrored (Clvm/Ints.v) and compared with the code on every
-   boundary of every width in the `ints` stream; the corresponding theorems are not proved yet. *)
+(* Signed widths (i8 ... i128, isize): to_be_bytes(v) is two's complement (be_fixed); encoding it gives the
+   canonical CLVM atom of v and decoding the canonical atom gives back to_be_bytes(v), for EVERY width > 0. *)
+Theorem C11_encode_number_signed : forall LEN v,
+  (0 < LEN)%nat -> (- Z.of_N (256 ^ N.of_nat LEN / 2) <= v < Z.of_N (256 ^ N.of_nat LEN / 2))%Z ->
+  encode_number (be_fixed LEN v) (v <? 0)%Z = canon v.
+Proof. exact encode_number_signed. Qed.
+
+Theorem C11_decode_number_signed : forall LEN v,
+  (0 < LEN)%nat -> (- Z.of_N (256 ^ N.of_nat LEN / 2) <= v < Z.of_N (256 ^ N.of_nat LEN / 2))%Z ->
+  decode_number LEN true (canon v) = Some (be_fixed LEN v).
+Proof. exact decode_number_signed. Qed.
